@@ -32,6 +32,10 @@ func init() {
 }
 
 func runC16(c *an.Ctx) {
+	dnssvcWiring(c, "C16-R10", func(dst, src string) bool {
+		n := normName(dst) + " " + normName(src)
+		return strings.Contains(n, "billstat")
+	}, 1)
 	// ---- C16-R10: builder wiring of the components this property rests on
 	c.Floor("C16-R10", 4)
 	builderWiring(c, "C16-R10", map[string][]string{
